@@ -8,6 +8,7 @@ by element, with a NON-batched replica rebuilt from exactly those slices."""
 import copy
 import itertools
 import json
+import math
 import random
 import warnings
 
@@ -17,7 +18,7 @@ import gpytorch
 from gpytorch import settings as gs
 from harness.lib import common as C
 
-COQ_TARGETS = ["Models/C08_shape.vo", "Models/C08_diag.vo", "Models/C08_prior.vo"]
+COQ_TARGETS = ["Models/C08_shape.vo", "Models/C08_diag.vo", "Models/C08_prior.vo", "Models/C08_call.vo"]
 LEVEL_NOTE = ("theorems are about the Gallina shape/broadcast model (which slice each batch element reads); the tie to "
               "/repo is differential: every module's batched output element b vs a non-batched replica built from the "
               "slices the Coq model names (float64, 1e-9)")
@@ -483,6 +484,175 @@ class VariationalFam(Family):
 
 
 
+NAN = float("nan")
+
+
+class ExactGPNanFam(ExactGPFam):
+    """batched exact GP whose training targets carry NaNs at DIFFERENT positions in every batch element, run under a
+    non-default settings.observation_nan_policy (and fast_pred_var on / off).  Element b of the batched posterior /
+    predictive must be the non-batched replica run under the same settings on
+      'fill': element b's own targets (its own NaN pattern; some elements have no NaN at all),
+      'mask': element b's targets with the UNION of the batch elements' NaN positions removed (the batch reading that
+              settings.observation_nan_policy documents: "If an output is NaN in a single batch element, this output is
+              masked for the complete batch"; coq/Props/C16.v c16_batch_mask_mean_is_deletion).
+    Under 'mask' also the exact MLL (train mode)."""
+
+    def __init__(self, kname, policy, fpv):
+        self.kname, self.mode, self.via, self.policy, self.fpv = kname, "both", False, policy, fpv
+        self.name = "exactgp-nan:%s:%s%s" % (kname, policy, "+fast_pred_var" if fpv else "")
+
+    def data(self, rng, sd):
+        d = dict(x=points(rng, sd, N), xs=points(rng, sd, M))
+        B = int(torch.Size(sd).numel())
+        y = rand(rng, B, N)
+        if self.policy == "mask":
+            # the union of the patterns must leave observations: patterns are subsets of a set U of at most N - 2 positions
+            U = rng.sample(range(N), rng.randint(1, N - 2))
+            pats = [[i for i in U if rng.random() < 0.6] for _ in range(B)]
+        else:
+            pats = [rng.sample(range(N), rng.choice([0, 1, 1, 2])) for _ in range(B)]
+        if B > 1 and all(sorted(p) == sorted(pats[0]) for p in pats):         # different patterns in different elements
+            pats[0] = [] if pats[1] else [U[0] if self.policy == "mask" else rng.randrange(N)]
+        union = sorted(set(i for p in pats for i in p))
+        y_rep = y.clone()
+        for b, p in enumerate(pats):
+            y[b, p] = NAN
+            y_rep[b, union if self.policy == "mask" else p] = NAN
+        d["y"], d["y_rep"] = y.view(*sd, N), y_rep.view(*sd, N)
+        return d
+
+    def dslice(self, data, didx):
+        # the replica of element b is given what the policy documents element b to be conditioned on
+        return dict(x=data["x"][didx], xs=data["xs"][didx], y=data["y_rep"][didx], y_rep=data["y_rep"][didx])
+
+    def run(self, mod, data):
+        x, y, xs = data["x"], data["y"], data["xs"]
+        model = self.GP(x, y, mod)
+        res = {}
+        with torch.no_grad(), gs.observation_nan_policy(self.policy), gs.fast_pred_var(self.fpv):
+            if self.policy == "mask":
+                model.train(); mod.likelihood.train()
+                res.update(each_output(mll=lambda: gpytorch.mlls.ExactMarginalLogLikelihood(mod.likelihood, model)(model(x), y)))
+            model.eval(); mod.likelihood.eval()
+            try:
+                post = model(xs)
+                res["post_mean"], res["post_cov"] = post.mean, post.covariance_matrix
+                res["pred_cov"] = mod.likelihood(post).covariance_matrix
+                # a second call on the same model object: served from the caches of the prediction strategy
+                again = model(xs)
+                res["post_mean_again"], res["post_cov_again"] = again.mean, again.covariance_matrix
+            except Exception as e:
+                res["post_mean"] = e
+        return res
+
+    def input_class(self, name, sp, sd, m):
+        # class of the recorded finding C08-nan-policy-param-batch-exceeds-target-batch: the hyperparameters' batch shape
+        # does not expand to the targets' batch shape (Coq: expands_to sp sd = false)
+        return "" if m["expands"] else "+param-batch-exceeds-data-batch"
+
+
+# ---- geometry axis: batch elements that live far apart from each other
+FAR_N1, FAR_N2 = 30, 28       # more than 25 points on both sides: torch.cdist switches to the matrix-multiplication formula
+FAR_OFFSETS = (1.0e6, 1.0e7, 1.0e8)
+EPS64 = 2.0 ** -52
+# stationary kernels whose implementation centres the inputs per data set (RBF / RQ through kernels.kernel.sq_dist,
+# Matern explicitly: "subtract the mean for numerical stability") or works on exact coordinate differences (Periodic),
+# and composites of them: for these a non-batched evaluation is accurate wherever the data set lives
+FAR_KERNELS = ("rbf_ard", "matern15", "matern25_ard", "rq", "rq_ard", "periodic", "scale_rbf", "scale_matern", "rbf*matern",
+               "scale(rbf+rq)")
+
+
+def points_joint(rng, sd, ns):
+    """for every batch element one draw of sum(ns) points of the grid Z/8 in [-2, 2]^D, pairwise separated by >= 0.25 in
+    the max norm (sequential rejection), split into len(ns) sets"""
+    B, tot = int(torch.Size(sd).numel()), sum(ns)
+    rows = []
+    for _ in range(B):
+        p = []
+        while len(p) < tot:
+            c = [rng.randint(-16, 16) / 8.0 for _ in range(D)]
+            if all(max(abs(a - b) for a, b in zip(c, q)) >= 0.25 for q in p):
+                p.append(c)
+        rows.append(p)
+    t = torch.tensor(rows)
+    outs, k = [], 0
+    for n in ns:
+        outs.append(t[:, k:k + n].reshape(*sd, n, D))
+        k += n
+    return outs
+
+
+def far_rounding_bound(kern, x, x2):
+    """bound on the float64 error of one entry of kern(x, x2) for ONE data set when the computation is centred on that
+    data set's own mean (as in harness/drivers/C07.py entry_rounding): the squared scaled distance is evaluated as
+    |a|^2 + |b|^2 - 2 a.b on inputs centred on mean(x) and divided by the lengthscale,
+        eps_sq = (d + 2) * eps64 * 2 * max |x_i - mean|^2 / lengthscale^2;
+    kernels of r^2 (|dk/dr^2| <= 1): eps_sq; kernels of r = sqrt(r^2) (Matern; Lipschitz constant <= 1 in r):
+    eps_sq / (2 r_min), r_min the smallest scaled distance (sqrt(eps_sq) if r_min is below that); exact-difference
+    kernels (Periodic): 64 * eps64 * (1 + pi max|diff| / period) / lengthscale.  Summed over the sub-kernels.  For the
+    kernels that centre before they scale (Matern) and for Periodic the bound does not depend on where the data set
+    lives; RBF / RQ scale first and pay eps64 * |x| / lengthscale per coordinate."""
+    pts = torch.cat([x, x2], -2)
+    xc = pts - x.mean(-2, keepdim=True)
+    d = pts.shape[-1]
+    total = 0.0
+    amax = pts.abs().max().item()
+    for m in kern.modules():
+        if isinstance(m, K.PeriodicKernel):
+            diff = (pts.unsqueeze(-2) - pts.unsqueeze(-3)).abs().max().item()
+            total += 64 * EPS64 * (1.0 + math.pi * diff / m.period_length.min().item()) / m.lengthscale.min().item()
+            continue
+        if not isinstance(m, K.Kernel) or not getattr(m, "has_lengthscale", False) or m.lengthscale is None:
+            continue
+        ell = m.lengthscale.min().item()
+        eps_sq = (d + 2) * EPS64 * 2.0 * (xc / ell).pow(2).sum(-1).max().item()
+        if isinstance(m, K.MaternKernel):
+            r = torch.cdist(xc / m.lengthscale.max().item(), xc / m.lengthscale.max().item())
+            r_min = (r + torch.eye(r.shape[-1]) * 1e300).min().item()
+            total += math.sqrt(eps_sq) if r_min <= math.sqrt(eps_sq) else eps_sq / (2.0 * r_min)
+        else:
+            # RBF / RQ divide the UNCENTRED coordinates by the lengthscale before kernels.kernel.sq_dist centres them: every
+            # scaled coordinate carries the rounding error eps64 * |x| / lengthscale of that division, the scaled distance
+            # 2 sqrt(d) times that; both kernels have Lipschitz constant < 1 in r
+            total += eps_sq + 2.0 * math.sqrt(d) * EPS64 * amax / ell
+    return total
+
+
+class FarKernelFam(KernelFam):
+    """kernel matrices on batched data whose batch elements live far apart: element b of the data batch is shifted by
+    (ravel index of b) * offset, offset in 1e6 .. 1e8 (un-normalised inputs, time stamps), with more than 25 points on both
+    sides of the cross-covariance.  Element b must still be the non-batched replica on element b's data; the tolerance is
+    max(TOL, 8 * honest rounding bound of the replica's own (per data set centred) computation)."""
+
+    def __init__(self, kname):
+        KernelFam.__init__(self, kname)
+        self.name = "kernel-far:" + kname
+
+    def data(self, rng, sd):
+        x, x2 = points_joint(rng, sd, (FAR_N1, FAR_N2))
+        off = rng.choice(FAR_OFFSETS)
+        B = int(torch.Size(sd).numel())
+        shift = (torch.arange(B, dtype=x.dtype) * off).view(*sd, 1, 1)
+        return dict(x=x + shift, x2=x2 + shift)      # the grid coordinates stay exactly representable
+
+    def run(self, mod, data):
+        with torch.no_grad():
+            return each_output(K=lambda: mod(data["x"]).to_dense(), Kx=lambda: mod(data["x"], data["x2"]).to_dense(),
+                               Kx_T=lambda: mod(data["x2"], data["x"]).to_dense().transpose(-1, -2),
+                               diag=lambda: mod(data["x"], diag=True))
+
+    def case_tol(self, mod, data):
+        """mod: the batched kernel; the bound of the worst element (smallest lengthscales of the whole batch)"""
+        x, x2 = data["x"].reshape(-1, FAR_N1, D), data["x2"].reshape(-1, FAR_N2, D)
+        with torch.no_grad():
+            b = max(far_rounding_bound(mod, x[i], x2[i]) for i in range(x.shape[0]))
+        FAR_BOUNDS.append(b)
+        return max(TOL, 8.0 * b)
+
+
+FAR_BOUNDS = []
+
+
 P = gpytorch.priors
 
 
@@ -604,6 +774,17 @@ def families(tier):
     fams += [ExactGPFam("scale_rbf", via=True), ExactGPFam("matern25_ard"), ExactGPFam("rbf+linear", mode="train-only", via=True),
              ExactGPFam("scale_matern", mode="test-only")]
     fams += [VariationalFam(True), VariationalFam(False)]
+    # quick tier: the members of a rotation group take turns over the broadcastable shape pairs (every pair gets one 'mask'
+    # and one 'fill' family with opposite fast_pred_var, and one far-geometry kernel; the turn moves with the seed);
+    # thorough tier: every family on every pair
+    nan_fams = [ExactGPNanFam("scale_rbf", "mask", False), ExactGPNanFam("scale_matern", "mask", True),
+                ExactGPNanFam("rbf+linear", "fill", True), ExactGPNanFam("matern25_ard", "fill", False)]
+    for i, f in enumerate(nan_fams):
+        f.rotate = (i % 2, 2)
+    far_fams = [FarKernelFam(k) for k in FAR_KERNELS]
+    for i, f in enumerate(far_fams):
+        f.rotate = (i, len(far_fams))
+    fams += nan_fams + far_fams
     fams += [ExactGPPriorFam(site) for site in ExactGPPriorFam.SITES]
     fams += [VariationalPriorFam(site) for site in VariationalPriorFam.SITES]
     return fams
@@ -612,7 +793,7 @@ def families(tier):
 # event rank (number of trailing non-batch dimensions) of every output
 EV = dict(K_idx_first=2, K_idx_second=2, K_idx_slice=2, Kx_idx_first=2, prior_idx_first_mean=1, prior_idx_first_cov=2,
           prior_idx_second_mean=1, prior_idx_second_cov=2, post_idx_first_mean=1, post_idx_first_cov=2, K=2, Kx=2, diag=1, lazy_diag=1, diag_n3=1, lazy_diag_n3=1, m=1, marg_mean=1, marg_cov=2, elp=1, lmarg=1, mll=0, prior_mean=1, prior_cov=2,
-          post_mean=1, post_cov=2, pred_cov=2, train_mean=1, train_cov=2, kl=0, elbo=0, pred_mean=1, loo=0, pll=0)
+          post_mean=1, post_cov=2, pred_cov=2, post_mean_again=1, post_cov_again=2, Kx_T=2, train_mean=1, train_cov=2, kl=0, elbo=0, pred_mean=1, loo=0, pll=0)
 
 
 def run_family(out, fam, sp, sd, m, seed, table):
@@ -624,6 +805,7 @@ def run_family(out, fam, sp, sd, m, seed, table):
     batched = fam.make(sp)
     fill_params(batched, rng)
     data = fam.data(rng, sd)
+    tol = fam.case_tol(batched, data) if hasattr(fam, "case_tol") else fam.tol
     try:
         got = fam.run(batched, data)
     except Exception as e:
@@ -671,7 +853,7 @@ def run_family(out, fam, sp, sd, m, seed, table):
                 out.fail("impl-exception:replica:%s:%s:%s" % (fam.name, name, type(r).__name__),
                          "non-batched replica raised %r while computing output %s" % (r, name), dict(case, b=list(b)))
                 continue
-            if mine.shape != r.shape or not torch.allclose(mine, r, rtol=fam.tol, atol=fam.tol) \
+            if mine.shape != r.shape or not torch.allclose(mine, r, rtol=tol, atol=tol) \
                     or bool(torch.isnan(mine).any()):
                 err = float((mine - r).abs().max()) if mine.shape == r.shape else None
                 out.fail("replica:%s:%s:%s%s" % (fam.name, name, key_shape, fam.input_class(name, sp, sd, m)),
@@ -680,6 +862,121 @@ def run_family(out, fam, sp, sd, m, seed, table):
                          dict(case, b=list(b), pidx=list(pidx), didx=list(didx)),
                          impl=mine, model=r)
     return ntr
+
+
+# ------------------------------------------------------------------ exact GP: train and test batch shapes independent
+
+TT_KERNELS = ("scale_rbf", "matern25_ard", "rbf+linear")
+
+
+def train_test_cases(table, seed, tier):
+    """ALL broadcastable pairs (train batch shape, test batch shape) - equal-rank pairs that differ in size-1 dimensions on
+    either side included - each with parameter batch shapes broadcastable with the pair's broadcast shape: (quick) one
+    drawn from them, () included / (thorough) all of them"""
+    shapes = all_shapes()
+    rng = random.Random(seed * 7919 + 8)
+    cases = []
+    for s_tr in shapes:
+        for s_te in shapes:
+            m1 = table[(s_tr, s_te)]
+            if m1 is None:
+                continue
+            comp = [sp for sp in shapes if sp != () and table[(sp, m1["t"])] is not None]
+            sps = [()] + comp if tier != "quick" else [rng.choice([()] + comp)]
+            for sp in sps:
+                cases.append((sp, s_tr, s_te))
+    return cases
+
+
+def tt_class(s_tr, s_te):
+    """input class: how the two data batch shapes relate"""
+    if s_tr == s_te:
+        return "equal"
+    if len(s_tr) != len(s_te):
+        return "rank-differs"
+    return "equal-rank-size1-stretch"
+
+
+def run_train_test(out, table, sp, s_tr, s_te, seed, kname):
+    """batched exact GP with hyperparameters of batch shape sp, training data of batch shape s_tr, test inputs of batch shape
+    s_te.  Element b of the posterior (batch shape t = broadcast(sp, broadcast(s_tr, s_te))) must be the non-batched replica
+    built from parameter slice bproj sp b, training slice bproj s_tr b, test slice bproj s_te b.  The slices are read off
+    the Coq table by composition: (sp, t1) gives b -> (parameter index, index d into t1), (s_tr, s_te) gives d -> (train
+    index, test index) (Props/C08.v c08_bproj_compose_l / _r: bproj s (bproj t1 b) = bproj s b)."""
+    fam = ExactGPFam(kname)
+    rng = random.Random("tt|%s|%s|%s|%s|%d" % (kname, sp, s_tr, s_te, seed))
+    case = dict(kind="train-test", kernel=kname, sp=list(sp), s_tr=list(s_tr), s_te=list(s_te), seed=seed)
+    cls = tt_class(s_tr, s_te)
+    ks = "train-rank%d-x-test-rank%d:%s" % (len(s_tr), len(s_te), cls)
+    m1 = table[(s_tr, s_te)]
+    m = table[(sp, m1["t"])]
+    t = m["t"]
+    # cross-check of the composition against torch
+    tt = tuple(torch.broadcast_shapes(torch.Size(sp), torch.Size(s_tr), torch.Size(s_te)))
+    itr = torch.arange(int(torch.Size(s_tr).numel())).view(s_tr).expand(tt)
+    ite = torch.arange(int(torch.Size(s_te).numel())).view(s_te).expand(tt)
+    ok = tt == t
+    for tr in m["triples"]:
+        d1 = m1["triples"][tr["d_ravel"]]
+        ok = ok and d1["b"] == tr["d"] and int(itr[tr["b"]]) == d1["p_ravel"] and int(ite[tr["b"]]) == d1["d_ravel"]
+    if not ok:
+        out.fail("shape-model:three-way-composition", "composed Coq projections disagree with torch.broadcast_shapes / expand of "
+                 "three operands", case, impl=list(tt), model=list(t))
+        return 0
+    batched = fam.make(sp)
+    fill_params(batched, rng)
+    x, y, xs = points(rng, s_tr, N), rand(rng, *s_tr, N), points(rng, s_te, M)
+
+    def post(h, x_, y_, xs_):
+        model = fam.GP(x_, y_, h)
+        model.eval(); h.likelihood.eval()
+        with torch.no_grad():
+            p = model(xs_)
+            return dict(post_mean=p.mean, post_cov=p.covariance_matrix, pred_cov=h.likelihood(p).covariance_matrix)
+    try:
+        got = post(batched, x, y, xs)
+    except Exception as e:
+        out.fail("impl-exception:exactgp-train-test:%s:%s" % (type(e).__name__, ks),
+                 "batched exact GP raised on broadcastable (parameter, train, test) batch shapes %s, %s, %s: %r" % (sp, s_tr, s_te, e), case)
+        return 0
+    for name, v in list(got.items()):
+        ev = EV[name]
+        if tuple(v.shape[:v.dim() - ev]) != t:
+            out.fail("batch-shape:exactgp-train-test:%s:%s" % (name, ks), "output %s has shape %s, the broadcast batch shape is %s"
+                     % (name, tuple(v.shape), t), case, impl=list(v.shape), model=list(t))
+            del got[name]
+    n = 0
+    for tr in m["triples"]:
+        d1 = m1["triples"][tr["d_ravel"]]
+        b, pidx, tridx, teidx = tr["b"], tr["p"], d1["p"], d1["d"]
+        rep = fam.make(())
+        copy_slice(batched, rep, pidx)
+        try:
+            ref = post(rep, x[tridx], y[tridx], xs[teidx])
+        except Exception as e:
+            out.fail("impl-exception:replica:exactgp-train-test:%s" % type(e).__name__, "non-batched replica raised %r" % e, dict(case, b=list(b)))
+            continue
+        n += 1
+        for name, v in got.items():
+            mine, r = v[b], ref[name]
+            if mine.shape != r.shape or not torch.allclose(mine, r, rtol=TOL, atol=TOL) or bool(torch.isnan(mine).any()):
+                err = float((mine - r).abs().max()) if mine.shape == r.shape else None
+                out.fail("replica:exactgp-train-test:%s:%s" % (name, ks),
+                         "element b of %s differs from the non-batched replica built from parameter slice %s, training slice %s, "
+                         "test slice %s (max abs err %s)" % (name, list(pidx), list(tridx), list(teidx), err),
+                         dict(case, b=list(b)), impl=mine, model=r)
+    return n
+
+
+def check_train_test(out, table, seed, tier):
+    n = 0
+    for i, (sp, s_tr, s_te) in enumerate(train_test_cases(table, seed, tier)):
+        kname = TT_KERNELS[(i + seed) % len(TT_KERNELS)]
+        k = run_train_test(out, table, sp, s_tr, s_te, seed, kname)
+        n += k
+        out.case(dict(kind="train-test", kernel=kname, sp=list(sp), s_tr=list(s_tr), s_te=list(s_te)), k > 1,
+                 label="exactgp-train-test:" + tt_class(s_tr, s_te))
+    return n
 
 
 # ------------------------------------------------------------------ model lists
@@ -981,25 +1278,44 @@ def run(out, ctx):
                 "and eval mode and through get_fantasy_model, a likelihood keyword (inflate=) through LikelihoodList __call__ / forward / expected_log_prob / likelihood_i, "
                 "each also against the dense definition so that the keyword is known to be consumed) against the members' own outputs (their mean for the sum MLL); failure keys "
                 "carry the input-class bits computed by the Coq model (Models/C08_diag.v: expands_to, takes_diagonal; "
-                "Models/C08_prior.v: param_rank_short); non-trivial = broadcast batch has > 1 element" % len(KERNELS))
+                "Models/C08_prior.v: param_rank_short); non-trivial = broadcast batch has > 1 element.  "
+                "NON-DEFAULT SETTINGS: batched exact GP with NaN targets at DIFFERENT positions per batch element under "
+                "observation_nan_policy 'mask' / 'fill' x fast_pred_var off / on (posterior, predictive, a second call served from the "
+                "caches, MLL under 'mask'): element b vs the replica run under the same settings on element b's own targets ('fill') / "
+                "on element b's targets minus the union of the NaN positions ('mask', the documented batch reading).  "
+                "TRAIN / TEST BATCH SHAPES INDEPENDENT: exact GP posterior for ALL broadcastable pairs (train batch shape, test batch "
+                "shape) - equal-rank pairs stretched through size-1 dimensions on either side included - with a parameter batch shape "
+                "drawn from the compatible ones; slices by composing the Coq projections (c08_bproj_compose_l/_r), cross-checked against "
+                "torch; an exception on a broadcastable triple is a failure.  GEOMETRY: %d stationary kernels on batch data whose "
+                "elements live far apart (element b shifted by ravel(b) * 1e6 .. 1e8), %d x %d points (torch.cdist's matmul regime) for K, "
+                "K(x, x2), K(x2, x)^T, diag; tolerance max(1e-9, 8 x rounding bound of the replica's own per-data-set-centred computation).  "
+                "Quick tier: the NaN-policy families (pairs of them) and the far-geometry kernels take turns over the shape pairs"
+                % (len(KERNELS), len(FAR_KERNELS), FAR_N1, FAR_N2))
     out.exhaustive = True
     out.extra["tolerances"] = {"replica": TOL}
     fams = families(tier)
     rounds = 1 if tier == "quick" else 4
-    ntr = 0
+    ntr = nbc = 0
     for (sp, sd), m in zip(pairs, models):
         ok = check_against_torch(out, sp, sd, m)
         out.case(dict(kind="shape-pair", sp=list(sp), sd=list(sd), broadcastable=m is not None), m is not None,
                  label="broadcastable" if m is not None else "not-broadcastable")
         if m is None or not ok:
             continue
+        nbc += 1
         for fam in fams:
+            rot = getattr(fam, "rotate", None)
+            if tier == "quick" and rot is not None and (nbc + seed) % rot[1] != rot[0]:
+                continue
             for r in range(rounds):
                 k = run_family(out, fam, sp, sd, m, seed * 1000 + r, table)
                 ntr += k
                 out.case(dict(family=fam.name, sp=list(sp), sd=list(sd), round=r), len(m["triples"]) > 1,
                          label=fam.name.split(":")[0])
+    ntr += check_train_test(out, table, seed, tier)
     out.extra["triples_compared"] = ntr
+    if FAR_BOUNDS:
+        out.extra["far-geometry rounding bound (max over cases)"] = max(FAR_BOUNDS)
     check_model_list(out, seed, 16 if tier == "quick" else 80)
     check_multioutput(out, seed, 6 if tier == "quick" else 24)
     out.tested_not_proved = [
@@ -1015,6 +1331,11 @@ def replay(path):
         check_model_list(out, case["seed"], case["k"] + 1)
     elif case.get("kind") == "multioutput":
         check_multioutput(out, case["seed"], case["k"] + 1)
+    elif case.get("kind") == "train-test":
+        shapes = all_shapes()
+        pairs = [(a, b) for a in shapes for b in shapes]
+        table = {pr: mm for pr, mm in zip(pairs, coq_triples(pairs, tag="C08_replay"))}
+        run_train_test(out, table, tuple(case["sp"]), tuple(case["s_tr"]), tuple(case["s_te"]), case["seed"], case["kernel"])
     elif "family" in case:
         sp, sd = tuple(case["sp"]), tuple(case["sd"])
         shapes = all_shapes()
